@@ -45,8 +45,9 @@ PROGRAMS = {
 BLOCK_FOREVER = "import threading\nlock = threading.Lock()\nlock.acquire()\nlock.acquire()\n"
 
 ENTRIES = ['run', 'call', 'evaluate', 'import']
-INTERLEAVINGS = ['unforced', 'zombie-first', 'grader-first', 'zombie-during-next', 'zombie-after-next']
-NEXT_KINDS = ['run-print', 'call-add', 'evaluate-expr', 'run-threaded', 'run-input']
+INTERLEAVINGS = ['unforced', 'zombie-first', 'grader-first', 'zombie-during-next', 'zombie-after-next', 'outer-interrupt-before-inner']
+HISTORIES = ['fresh', 'two-earlier-runs', 'earlier-runs-then-clear_context']
+NEXT_KINDS = ['run-print', 'call-add', 'evaluate-expr', 'run-threaded', 'run-input', 'run-long']
 
 
 def student_files(prog, entry):
@@ -127,6 +128,7 @@ class Controller:
 _CTL = [None]
 _INSTALLED = [False]
 _HAS_ABANDON = [False]
+_CONTAMINATED = [False]
 
 
 def zombie_handler_fn():
@@ -212,6 +214,9 @@ def do_next(sbx, kind):
         res = sbx.evaluate('add(10, 5) * 2', threaded=False)
     elif kind == 'run-threaded':
         sbx.run(code="print('threaded next')", threaded=True)
+    elif kind == 'run-long':
+        # long enough (tens of milliseconds) for a thread that is still running to get scheduled while this one is captured
+        sbx.run(code="print('long start')\nacc = 0\nfor i in range(400000):\n    acc += i\nprint('long end', acc)", threaded=False)
     elif kind == 'run-input':
         sbx.run(code="v = input('n? ')\nprint('got', v)", inputs=['41'], threaded=False)
     exc = unwrap(sbx.get_exception())
@@ -229,7 +234,17 @@ def do_next(sbx, kind):
             'exception': type(exc).__name__ if exc is not None else None, 'execution_record': record}
 
 
-def fresh_reference(files, kinds):
+def apply_history(sbx, sandbox, hist):
+    if hist != 'fresh':
+        # the sandbox has a past: earlier executions, possibly forgotten again with clear_context()
+        sbx.run(code="print('earlier one')", threaded=False)
+        sbx.run(code="earlier = 2", threaded=False)
+        if hist == 'earlier-runs-then-clear_context':
+            sandbox.clear_context()
+        sbx.clear_output()
+
+
+def fresh_reference(files, kinds, hist='fresh'):
     from props import sbx_common as sc
     from pedal.sandbox import commands as sbx
     # the helper functions must exist: run only the helper part of the student file
@@ -237,16 +252,30 @@ def fresh_reference(files, kinds):
     sandbox, report = sc.new_sandbox(helper_only)
     sandbox.allowed_time = 5
     sbx.run()
+    apply_history(sbx, sandbox, hist)        # same past, minus the execution that times out
     return [do_next(sbx, k) for k in kinds]
+
+
+def settle(ctx, seconds=4.0):
+    """student threads of the previous case (a zombie that is still unwinding) would be mistaken for this case's: wait for them"""
+    end = time.time() + seconds
+    while time.time() < end:
+        left = [t for t in threading.enumerate() if t is not threading.main_thread() and not t.name.startswith('verif-')]
+        if not left:
+            return True
+        time.sleep(0.01)
+    ctx.count('cases_started_with_an_older_student_thread_still_alive')
+    return False
 
 
 def run_case(ctx, case):
     from props import sbx_common as sc
     from pedal.sandbox import commands as sbx
     install_monitoring()
+    settle(ctx)
     prog, entry, inter, allowed, nexts = case['program'], case['entry'], case['interleaving'], case['allowed_time'], case['next']
     files = student_files(prog, entry)
-    want_next = fresh_reference(files, nexts)
+    want_next = fresh_reference(files, nexts, case.get('history', 'fresh'))
     sandbox, report = sc.new_sandbox(files)
     sandbox.allowed_time = allowed
     if entry in ('call', 'evaluate'):
@@ -254,12 +283,16 @@ def run_case(ctx, case):
         if sbx.get_exception() is not None:
             ctx.inconclusive('setup run failed for %s' % prog)
             return
+    hist = case.get('history', 'fresh')
+    apply_history(sbx, sandbox, hist)
+    ctx.seen('histories', hist)
     n_rt_before = len(runtime_feedbacks(report))
     real_out = io.StringIO()
     saved_stdout = sys.stdout
     sys.stdout = real_out          # whatever reaches the process's stdout from now on is a leak (or the zombie's own text)
     snap = sc.Snapshot(sandbox)
     ctl = Controller()
+    threads_before = set(threading.enumerate())
     Z = 'Z1' if entry != 'import' else 'Z2'        # the thread that actually runs the slow code
     # for import there are two student threads: Z1 runs _execute (waiting in timeout() for Z2 which runs _import)
     ZH = zombie_handler_fn()
@@ -272,6 +305,11 @@ def run_case(ctx, case):
         ctl.holds.append(('G', '_start_mocking', 'return', 1, 'zombie-done', 1))
     elif inter == 'zombie-after-next':
         ctl.holds.append(('Z1', ZH, 'start', 1, 'next-returned', 1))
+    elif inter == 'outer-interrupt-before-inner':
+        # multi-file submissions: the thread running the main file (Z1) waits, with its own time limit, for the thread that
+        # imports the helper file (Z2). Both limits expire together; here the grader's interrupt reaches Z1 just before Z1
+        # gets to interrupt Z2.
+        ctl.holds.append(('Z1', 'terminate', 'start', 1, ('G', 'terminate', 'return'), 1))
     _CTL[0] = ctl
     ctl.active = True
     # watcher: raises the flag 'zombie-done' when the abandoned thread has left _execute (or died)
@@ -285,7 +323,7 @@ def run_case(ctx, case):
                 ctl.flag('zombie-done')
                 return
             time.sleep(0.005)
-    wt = threading.Thread(target=watcher, daemon=True)
+    wt = threading.Thread(target=watcher, daemon=True, name='verif-watcher')
     wt.start()
     t0 = time.time()
     raised = None
@@ -308,10 +346,21 @@ def run_case(ctx, case):
         else:
             ctx.inconclusive('watchdog: threaded call still running after %.0fs, grader at %s (%s)' % (time.time() - t0, where, case_label(case)))
         ctx.emergency_dump_and_exit()
-    threading.Thread(target=hang_watchdog, daemon=True).start()
+    threading.Thread(target=hang_watchdog, daemon=True, name='verif-watchdog').start()
     try:
         try:
-            if entry in ('run', 'import'):
+            if case.get('threaded_via') == 'attribute':
+                # the documented switch: every execution of this sandbox - including its imports of other student files,
+                # which then run in a thread of their own, with their own time limit - is threaded
+                sandbox.threaded = True
+                if entry in ('run', 'import'):
+                    sbx.run()
+                elif entry == 'call':
+                    sbx.call('slow')
+                else:
+                    sbx.evaluate('slow()')
+                sandbox.threaded = False
+            elif entry in ('run', 'import'):
                 sbx.run(threaded=True)
             elif entry == 'call':
                 sbx.call('slow', threaded=True)
@@ -348,6 +397,20 @@ def run_case(ctx, case):
         stop_watch.set()
         _CTL[0] = None
     leaked_real = real_out.getvalue()
+    # ---- student threads that were never interrupted (they cannot be stopped from here: what they print lands in whatever
+    # is captured next, so this worker's later cases would be judged on polluted output - it stops after this case) -------
+    never_interrupted = []
+    if prog not in ('block-forever', 'swallow-then-finish'):
+        grace = time.time() + 1.5
+        while time.time() < grace:
+            never_interrupted = [t for t in threading.enumerate() if t not in threads_before and not t.name.startswith('verif-')
+                                 and t is not threading.current_thread()]
+            if not never_interrupted:
+                break
+            time.sleep(0.02)
+    if never_interrupted:
+        ctx.count('student_threads_still_running_after_the_timeout')
+        _CONTAMINATED[0] = True
     # ---------------------------------------------------------------------------------------------------
     ctx.count('timeouts_observed')
     ctx.seen('programs', prog)
@@ -357,17 +420,17 @@ def run_case(ctx, case):
     ctx.seen('cross_thread_event_orders', order)
     if ctl.expired:
         ctx.count('gate_expired')
-        ctx.inconclusive('gate expired: %s (%s)' % (ctl.expired[0], case_label(case)))
+        ctx.undecided('gate expired: %s (%s)' % (ctl.expired[0], case_label(case)))
         return
     if not quiesced:
-        ctx.inconclusive('abandoned thread did not finish within the watchdog (%s)' % case_label(case))
+        ctx.undecided('abandoned thread did not finish within the watchdog (%s)' % case_label(case))
         return
     forced_ok = confirm_order(inter, ctl.log, entry)
     if inter != 'unforced':
         if forced_ok:
             ctx.count('forced_orders_confirmed')
         elif not never_handles:
-            ctx.inconclusive('forced order %s not confirmed in the event log (%s): %s' % (inter, case_label(case), order))
+            ctx.undecided('forced order %s not confirmed in the event log (%s): %s' % (inter, case_label(case), order))
             return
     ctx.case(case_label(case))
     cs = public(case)
@@ -376,7 +439,7 @@ def run_case(ctx, case):
         ctx.violation('C14|call-raised|%s|%s' % (type(raised).__name__, entry), cs, traceback.format_exception_only(type(raised), raised)[-1][:300])
         return
     if wall > allowed + 5 + (GATE_TIMEOUT if inter != 'unforced' else 0):
-        ctx.inconclusive('watchdog: call took %.1fs for allowed_time %.2f (%s)' % (wall, allowed, case_label(case)))
+        ctx.undecided('watchdog: call took %.1fs for allowed_time %.2f (%s)' % (wall, allowed, case_label(case)))
     for when, ob in (('at-return', at_return), ('at-quiescence', at_quiescence)):
         if when == 'at-quiescence' and nexts_done:
             pass    # a later execution has already (legitimately) replaced the recorded exception
@@ -399,6 +462,10 @@ def run_case(ctx, case):
             ctx.violation('C14|next-execution-altered|%s|%s|%s' % (field, inter, fam), cs,
                           {'next': nexts[i], 'position': i, 'fresh sandbox': want, 'this sandbox': got, 'events': order})
             break
+    if never_interrupted and leaked_real:
+        ctx.violation('C14|student-thread-never-interrupted-and-keeps-printing|%s|%s|%s' % (entry, inter, case.get('threaded_via', 'argument')), cs,
+                      {'threads still running 1.5 s after the call returned': [t.name for t in never_interrupted],
+                       'their text on the process stdout (and in whatever execution is captured while they run)': leaked_real[:120], 'events': order})
     if leaked_real and 'tick' not in leaked_real and 'started' not in leaked_real and 'survived' not in leaked_real:
         ctx.violation('C14|next-execution-wrote-to-real-stdout|%s' % inter, cs, leaked_real[:200])
     elif leaked_real:
@@ -424,6 +491,7 @@ def run_deadline_case(ctx, case):
     from props import sbx_common as sc
     from pedal.sandbox import commands as sbx
     install_monitoring()
+    settle(ctx)
     prog, entry, allowed, nexts = case['program'], case['entry'], case['allowed_time'], case['next']
     body, own_exc = FINITE[prog]
     helpers = "def add(a, b):\n    print('adding', a, b)\n    return a + b\n\n"
@@ -479,7 +547,7 @@ def run_deadline_case(ctx, case):
         else:
             ctx.inconclusive('watchdog: deadline case still running, grader at %s (%s)' % (where, deadline_label(case)))
         ctx.emergency_dump_and_exit()
-    threading.Thread(target=hang_watchdog, daemon=True).start()
+    threading.Thread(target=hang_watchdog, daemon=True, name='verif-watchdog').start()
     try:
         try:
             if entry == 'run':
@@ -510,16 +578,16 @@ def run_deadline_case(ctx, case):
     order = order_signature(ctl.log)
     ctx.seen('cross_thread_event_orders', order)
     if ctl.expired:
-        ctx.inconclusive('gate expired: %s (%s)' % (ctl.expired[0], deadline_label(case)))
+        ctx.undecided('gate expired: %s (%s)' % (ctl.expired[0], deadline_label(case)))
         return
     if not quiesced:
-        ctx.inconclusive('student thread did not end (%s)' % deadline_label(case))
+        ctx.undecided('student thread did not end (%s)' % deadline_label(case))
         return
     zs = idx(ctl.log, 'Z1:%s:start' % held_at)
     gd = idx(ctl.log, ':'.join(decided))
     zr = idx(ctl.log, 'Z1:released-after:' + ':'.join(decided))
     if zs is None or gd is None or zr is None or not (zs < gd < zr):
-        ctx.inconclusive('deadline race not produced (%s): %s' % (deadline_label(case), order))
+        ctx.undecided('deadline race not produced (%s): %s' % (deadline_label(case), order))
         return
     ctx.count('forced_orders_confirmed')
     ctx.count('timeouts_observed')
@@ -616,6 +684,13 @@ def confirm_order(inter, log, entry):
     if inter == 'zombie-after-next':
         nr = idx(log, 'flag:next-returned')
         return zs is not None and nr is not None and zdone is not None and nr < zdone
+    if inter == 'outer-interrupt-before-inner':
+        zt = idx(log, 'Z1:terminate:start')
+        gt = idx(log, 'G:terminate:return')
+        # either Z1 was held right before interrupting Z2 until the grader's interrupt was on its way, or the grader's limit
+        # expired first anyway and Z1 never got as far as interrupting Z2
+        ztr = idx(log, 'Z1:terminate:return')
+        return gt is not None and (ztr is None or gt < ztr)
     return True
 
 
@@ -630,7 +705,8 @@ def public(case):
 
 
 def case_label(case):
-    return '%s/%s/%s/%.2f/%s' % (case['program'], case['entry'], case['interleaving'], case['allowed_time'], ','.join(case['next']))
+    return '%s/%s/%s/%.2f/%s/%s/%s' % (case['program'], case['entry'], case['interleaving'], case['allowed_time'], ','.join(case['next']),
+                                        case.get('history', 'fresh'), case.get('threaded_via', 'argument'))
 
 
 def all_cases(ctx):
@@ -642,6 +718,14 @@ def all_cases(ctx):
             for inter in INTERLEAVINGS:
                 if prog == 'block-forever' and inter != 'unforced':
                     continue
+                if inter == 'outer-interrupt-before-inner' and entry != 'import':
+                    continue
+                if entry == 'import' and inter in ('unforced', 'outer-interrupt-before-inner'):
+                    # nested student threads (Sandbox.threaded = True: the import of the helper file gets a thread and a limit of
+                    # its own); the other named interleavings are defined for one student thread
+                    cases.append({'program': prog, 'entry': entry, 'interleaving': inter, 'threaded_via': 'attribute'})
+                    if inter == 'outer-interrupt-before-inner':
+                        continue
                 cases.append({'program': prog, 'entry': entry, 'interleaving': inter})
     return cases
 
@@ -664,7 +748,14 @@ def run(ctx):
             if k[0] == 'run-threaded':      # the first later execution must run in the grader thread to be gated
                 k[0], k[1] = k[1], k[0]
             case['next'] = k
+            case['history'] = rng.choice(HISTORIES)
+            if 'threaded_via' not in case:
+                case['threaded_via'] = rng.choice(['argument', 'attribute']) if c['entry'] != 'import' else 'argument'
             run_case(ctx, case)
+            if _CONTAMINATED[0]:
+                ctx.count('worker_stopped_after_a_student_thread_was_left_running')
+                ctx.note('a student thread was left running by %s; this worker stops here' % case_label(case))
+                return
     finite = [{'program': p, 'entry': e, 'kind': 'deadline', 'variant': v} for p in FINITE for e in ('run', 'call', 'evaluate')
               for v in ('inside-its-own-finish', 'between-disown-and-interrupt')]
     for rep in range(ctx.pick(1, 4)):
